@@ -66,9 +66,6 @@ fn step(mut ctx: Context, st: &str) -> Result<(Context, String), String> {
         "Q+" => format!("scope_pop_stack --copy {}", r),
         _ => return Err("BADCMD".to_string()),
     };
-    if t[1] == "A" && out.is_some() {
-        return Err("BADOUT".to_string());
-    }
     let ovar = out.clone().unwrap_or("__r".to_string());
     let script = format!("{} = {}\n", ovar, call);
     let before = err_count(&ctx);
@@ -107,7 +104,16 @@ fn step(mut ctx: Context, st: &str) -> Result<(Context, String), String> {
                 }
             };
             ctx.variables.retain(|k, _| !k.starts_with("__"));
+            // get_all_var_names into a named output variable: its value is a random handle name, shown as "H"
+            let real = if t[1] == "A" && !o.starts_with('E') {
+                out.as_ref().and_then(|n| ctx.variables.insert(n.clone(), "H".to_string()).map(|v| (n.clone(), v)))
+            } else {
+                None
+            };
             let s = format!("{};{}", o, vars_s(&ctx));
+            if let Some((n, v)) = real {
+                ctx.variables.insert(n, v);
+            }
             Ok((ctx, s))
         }
     }
